@@ -191,6 +191,14 @@ func GenTraceProgram(r *rand.Rand, o TraceOpts) *Program {
 				rule.Then = append(rule.Then, g.AssignTo(v, depth-1))
 			}
 		}
+		// growth gadget: the condition reads the size of a map, the action adds a key to it
+		// (what is remembered about the container must be dropped by the write of an element)
+		if r.Intn(8) == 0 {
+			mlen := func() *Expr { return CallE(VarE(P("F.M"), TAny, reflect.Map), "Len", TInt, reflect.Int) }
+			c := Bin("<", TBool, mlen(), LitI(int64(3+r.Intn(3))))
+			rule.When = Bin([]string{"&&", "||"}[r.Intn(2)], TBool, c, rule.When)
+			rule.Then = append(rule.Then, Assign(P("F.M", Bin("+", TStr, LitS("g"), mlen())), "=", LitI(int64(r.Intn(5)))))
+		}
 		if o.Announce && (r.Intn(3) == 0 || o.AnnounceDense) {
 			if !o.Marks {
 				rule.Then = append(rule.Then, stmtBumpSeq())
